@@ -81,7 +81,13 @@ where
     F: Float,
 {
     let this_in = !event.is_in_out();
-    let that_in = !event.is_other_in_out();
+    // `other_in_out` describes the other polygon just below this edge. For an edge that
+    // coincides with an edge of the other polygon, the other polygon changes across it as
+    // well, so its status above the edge is the opposite of the status below.
+    let that_in = match event.get_edge_type() {
+        EdgeType::SameTransition | EdgeType::DifferentTransition => event.is_other_in_out(),
+        _ => !event.is_other_in_out(),
+    };
     let is_in = match operation {
         Operation::Intersection => this_in && that_in,
         Operation::Union => this_in || that_in,
